@@ -26,7 +26,7 @@ ID = "C17"
 LEVEL = "model_checking"
 ENGINE = "E2 parse-history enumeration in forked pristine images + E4 preemption-bounded thread schedules"
 RULE = (
-    "E2: every sequence of <= D parses over a 16-text corpus, each sequence in a process forked from a pristine parent, every "
+    "E2: every sequence of <= D parses over a 18-text corpus, each sequence in a process forked from a pristine parent, every "
     "parse compared with the fresh-interpreter baseline of its text. E4: ordered pairs of corpus texts x {pristine, warm process image} "
     "x both start orders x EVERY switch point (preemption bound 1; thorough adds opcode granularity and bound 2 at call "
     "granularity); distinct = distinct history or distinct (pair, configuration, schedule); non-trivial = history of >= 2 parses "
@@ -66,6 +66,10 @@ CORPUS = {
     # one string, two kinds: 'E "x"' is a text event in [Events] (shared-a) and a track event in a track (shared-b)
     "shared-a": (mk(res=12, sync=SYNC, events=['5 = E "x"', '6 = E "section s"'], tracks={"ExpertSingle": T_S}), None),
     "shared-b": (mk(res=12, sync=SYNC, events=['6 = E "section s"'], tracks={"ExpertSingle": T_S + ['5 = E "x"', "0 = TS 4"]}), None),
+    # its last note tick mixes a lane line with an open-note line (the implementation calls the result undefined, but
+    # whatever it is, it must stay inside THIS parse): exercises the early exits of the per-note helpers
+    "open-mixed": (mk(res=12, sync=SYNC, events=EV, tracks={"ExpertSingle": T_S + ["20 = N 4 7", "20 = N 7 0"]}), None),
+    "flag-only": (mk(res=12, sync=SYNC, events=EV, tracks={"ExpertSingle": T_S + ["20 = N 3 5", "24 = N 6 9", "24 = N 5 2"]}), None),
     # fails inside the note loop of its SECOND track after two notes were built (unsorted over a tempo change)
     "fail-mid-track": (mk(res=100, sync=SYNC, events=EV, tracks=[("ExpertSingle", T_A), ("HardSingle", ["0 = N 0 0", "8 = N 1 0", "4 = N 2 0"])]), None),
 }
